@@ -97,11 +97,17 @@ func (p *Packet) Frames() int {
 	if p.shape == nil {
 		return 0
 	}
+	if p.format == nil || p.format.wordlen <= 0 {
+		return 0 // a packet can be decoded without a (usable) payload-format item
+	}
 	nchan := 1
 	for _, s := range p.shape.Sizes {
 		if s > 0 {
 			nchan *= int(s)
 		}
+	}
+	if nchan <= 0 {
+		return 0
 	}
 
 	return int(p.payloadLength) / (p.format.wordlen * nchan)
@@ -192,6 +198,9 @@ func (p *Packet) ReadValue(sample int) int {
 	case []int32:
 		return int(d[sample])
 	case []int64:
+		return int(d[sample])
+	case []byte:
+		// Payloads whose format has more than one component are kept as raw bytes.
 		return int(d[sample])
 	default:
 		panic("Oh no! Type of d is not known in Packet.ReadValue()")
@@ -324,6 +333,9 @@ func (p *Packet) Bytes() []byte {
 
 // ChannelInfo returns the number of channels in this packet, and the first one
 func (p *Packet) ChannelInfo() (nchan, offset int) {
+	if p.shape == nil {
+		return 0, int(p.offset) // a packet can be decoded without a payload-shape item
+	}
 	nchan = 1
 	for _, s := range p.shape.Sizes {
 		if s > 0 {
